@@ -7,11 +7,13 @@ package main
 import (
 	"bufio"
 	"crypto/sha256"
+	"database/sql"
 	"encoding/hex"
 	"encoding/json"
 	"errors"
 	"fmt"
 	"math"
+	"math/big"
 	"os"
 	"reflect"
 	"strconv"
@@ -355,6 +357,20 @@ func other(tag int) interface{} {
 	case 52:
 		var p ptrT
 		return &p
+	case 53: // database/sql null wrappers (driver.Valuer): structs like any other, never unwrapped
+		return sql.NullBool{}
+	case 54:
+		return sql.NullBool{Bool: true, Valid: true}
+	case 55:
+		return sql.NullString{String: "abc", Valid: true}
+	case 56:
+		return sql.NullInt64{Int64: 1, Valid: true}
+	case 57: // an error value (no String method) that wraps the library's sentinel
+		return fmt.Errorf("earlier evaluation: %w", parser.ErrInvalidOperation)
+	case 58: // a reader: reading it would use it up
+		return strings.NewReader("abc")
+	case 59:
+		return bufio.NewReader(strings.NewReader("abc"))
 	case 33: // a list of strings with capitals (in-place lower-casing would show)
 		return []string{"Admin", "ROOT", "Ops"}
 	case 34:
@@ -466,6 +482,16 @@ func buildVal(x *sexp) (interface{}, error) {
 			return nil, errors.New("bad string")
 		}
 		return sameEvaluatorStringer{s}, nil
+	case "strbig":
+		s, ok := hexBytes(a)
+		if !ok {
+			return nil, errors.New("bad string")
+		}
+		b, ok := new(big.Int).SetString(s, 10)
+		if !ok || b.String() != s {
+			return nil, errors.New("not a canonical integer")
+		}
+		return b, nil
 	case "strtm":
 		s, ok := hexBytes(a)
 		if !ok {
@@ -600,6 +626,12 @@ func snapshot(v interface{}) interface{} {
 		}
 		c := *t
 		return &c
+	case *big.Int:
+		return new(big.Int).Set(t)
+	case *strings.Reader:
+		return readerState{t.Len(), t.Size()}
+	case *bufio.Reader:
+		return readerState{t.Buffered(), int64(t.Size())}
 	case *parser.NestedError:
 		if t == nil {
 			return t
@@ -625,9 +657,28 @@ func snapshot(v interface{}) interface{} {
 	return v // scalars, funcs, chans, structs by value
 }
 
+type readerState struct {
+	left int
+	size int64
+}
+
 func same(a, b interface{}) bool {
 	if a == nil || b == nil {
 		return a == nil && b == nil
+	}
+	// readers: the snapshot holds how much is left to read
+	if st, ok := b.(readerState); ok {
+		switch r := a.(type) {
+		case *strings.Reader:
+			return st == readerState{r.Len(), r.Size()}
+		case *bufio.Reader:
+			return st.size == int64(r.Size()) && st.left == r.Buffered()
+		}
+		return false
+	}
+	if x, ok := a.(*big.Int); ok {
+		y, ok2 := b.(*big.Int)
+		return ok2 && x.Cmp(y) == 0
 	}
 	ra, rb := reflect.ValueOf(a), reflect.ValueOf(b)
 	if ra.Type() != rb.Type() {
@@ -734,7 +785,7 @@ func dbgClass(err error) (cls string) {
 	return "unknown"
 }
 
-// text of an error under recover: ok / empty / panic
+// text of an error under recover: ok / empty / panic / unstable (two calls in a row give two texts)
 func textClass(err error) (cls string) {
 	if err == nil {
 		return "-"
@@ -744,7 +795,12 @@ func textClass(err error) (cls string) {
 			cls = "panic"
 		}
 	}()
-	if err.Error() == "" {
+	t1 := err.Error()
+	t2 := err.Error()
+	if t1 != t2 {
+		return "unstable"
+	}
+	if t1 == "" {
 		return "empty"
 	}
 	return "ok"
